@@ -6,8 +6,8 @@
    pytezos cannot compute the static result type of MAP over an EMPTY list (known finding
    "empty-map-retype": it returns the source list with its old class), so the simulation and preservation
    theorems are proved for [typecheck_nr := typecheck_gen true] and refuted for [typecheck].
-   [strict = true] also rejects what is modelled but not yet proved: UPDATE / GET_AND_UPDATE on sets and maps, MAP on maps,
-   set/map literals (EMPTY_SET, EMPTY_MAP, MEM, GET, SIZE and ITER on sets/maps are in the proved fragment). *)
+   [strict = true] restricts three things: MAP bodies (lists and maps) keep the element/value type; APPLY does not capture a
+   value whose type mentions set or map. Everything else in Instr.v is in the proved fragment. *)
 From Coq Require Import List ZArith Bool Arith.
 From PV Require Import Base.Bytes Michelson.Instr.
 Import ListNotations.
@@ -86,6 +86,16 @@ Fixpoint has_coll (t : ty) : bool :=
   | _ => false
   end.
 
+(* well-formed types: the element type of a set and the key type of a map are comparable *)
+Fixpoint wf_ty (t : ty) : bool :=
+  match t with
+  | TSet k => comparable k && wf_ty k
+  | TMap k v => comparable k && wf_ty k && wf_ty v
+  | TPair a b | TOr a b | TLambda a b => wf_ty a && wf_ty b
+  | TOption a | TList a => wf_ty a
+  | _ => true
+  end.
+
 (* types whose values have a literal in the fragment (what APPLY may capture) *)
 Fixpoint has_literal (t : ty) : bool :=
   match t with
@@ -95,8 +105,7 @@ Fixpoint has_literal (t : ty) : bool :=
   | _ => true
   end.
 
-(* instructions without sub-programs. [strict = true]: the proved fragment (sets and maps are read-only there:
-   EMPTY_SET/EMPTY_MAP, MEM, GET, SIZE, ITER; no UPDATE, GET_AND_UPDATE, MAP on maps, set/map literals) *)
+(* instructions without sub-programs. [strict = true]: the proved fragment (only APPLY differs: no captured set/map) *)
 Definition tc_simple (strict : bool) (i : instr) (s : sty) : option sty :=
   match i with
   | I_EXEC => match s with
@@ -131,7 +140,7 @@ Definition tc_simple (strict : bool) (i : instr) (s : sty) : option sty :=
                         end
   | I_DROP _ | I_DUP _ | I_DIG _ | I_DUG _ => shuffle i s
   | I_SWAP => match s with a :: b :: r => Some (b :: a :: r) | _ => None end
-  | I_PUSH t d => if data_has_type t d && negb (strict && has_coll t) then Some (t :: s) else None
+  | I_PUSH t d => if data_has_type t d && wf_ty t then Some (t :: s) else None
   | I_PAIR => match s with a :: b :: r => Some (TPair a b :: r) | _ => None end
   | I_UNPAIR => match s with TPair a b :: r => Some (a :: b :: r) | _ => None end
   | I_CAR => match s with TPair a _ :: r => Some (a :: r) | _ => None end
@@ -314,9 +323,9 @@ Fixpoint typecheck_gen (strict : bool) (i : instr) (s : sty) {struct i} : option
           | _ => None   (* a MAP body may not fail *)
           end
       | TMap k v :: r =>
-          if strict then None else
           match typecheck_gen strict c (TPair k v :: r) with
-          | Some (Typed (b :: r1)) => if sty_eqb r1 r then Some (Typed (TMap k b :: r)) else None
+          | Some (Typed (b :: r1)) =>
+              if sty_eqb r1 r && (negb strict || ty_eqb v b) then Some (Typed (TMap k b :: r)) else None
           | _ => None
           end
       | _ => None
